@@ -80,6 +80,9 @@ static void do_op(int kind, uint64_t *st, SM3_CTX *acc, int t)
 	case 7: { uint8_t *p = out; size_t l = 0; rc = asn1_integer_to_der(buf, n % 40 + 1, &p, &l); ACCI(rc); rc = asn1_octet_string_to_der(buf, n, &p, &l); ACCI(rc);
 		  uint32_t nodes[8] = { 1, 2, (uint32_t)(vh_rand(st) % 100000), 7, (uint32_t)vh_rand(st), 1 }; rc = asn1_object_identifier_to_der(nodes, 6, &p, &l); ACCI(rc); ACC(out, l);
 		  const uint8_t *cp = out, *q; size_t ql; rc = asn1_integer_from_der(&q, &ql, &cp, &l); ACCI(rc); ACC(q, ql);
+		  // names of tags of every class: what a lookup returns stays what it was while other lookups (of this or another thread) go on
+		  { const char *n1 = asn1_tag_name(0x40 | (int)(vh_rand(st) & 0x1f)), *n2 = asn1_tag_name(0xc0 | (int)(vh_rand(st) & 0x1f)), *n3 = asn1_tag_name((int)(vh_rand(st) & 0x1f)), *n4 = asn1_tag_name(0xa0 | (int)(vh_rand(st) & 7));
+		    if (n1) ACC(n1, strlen(n1)); if (n2) ACC(n2, strlen(n2)); if (n3) ACC(n3, strlen(n3)); if (n4) ACC(n4, strlen(n4)); }
 		  char b64[2048]; BASE64_CTX bc; int o1 = 0, o2 = 0; base64_encode_init(&bc); base64_encode_update(&bc, buf, (int)(n % 300), (uint8_t *)b64, &o1); base64_encode_finish(&bc, (uint8_t *)b64 + o1, &o2); ACC(b64, (size_t)(o1 + o2));
 		  char hx[1300]; for (size_t i = 0; i < n % 300; i++) sprintf(hx + 2 * i, "%02x", buf[i]); uint8_t hb[300]; size_t hl = 0; rc = hex_to_bytes(hx, 2 * (n % 300), hb, &hl); ACCI(rc); ACC(hb, hl); break; }
 	case 8: { const uint8_t *cert; size_t cl; rc = x509_certs_get_cert_by_index(srv_chain, srv_chainlen, 0, &cert, &cl); ACCI(rc); SM2_KEY pk; rc = x509_cert_get_subject_public_key(cert, cl, &pk); ACCI(rc);
